@@ -39,9 +39,8 @@ Print Assumptions c18_dimension_guard.
 (* the v1 search handler goes through the same evaluator with the query it builds *)
 Theorem c18_dimension_guard_v1 : forall schema req,
   handler_search1 schema req = Call OpSearch ->
-  Forall (fun p => fst p = snd p) (eval_reach schema (v1_query req)) /\
-  (validate_search1 req = true -> validate_query (v1_query req) = true).
-Proof. intros schema req H. split; [exact (dimension_guard_v1 schema req H) | exact (v1_query_valid req)]. Qed.
+  Forall (fun p => fst p = snd p) (eval_reach schema (v1_query req)).
+Proof. exact dimension_guard_v1. Qed.
 Print Assumptions c18_dimension_guard_v1.
 
 (* --- write path: a point accepted by CheckCompatibleMap (+ id and size tests) has exactly the
